@@ -362,9 +362,10 @@ pub fn crypto_pwhash_str_needs_rehash(
 ) -> Result<bool, Error> {
     let pwhash = Pwhash::parse_encoded_pwhash(hashed_password)?;
 
-    let (t_cost, m_cost) = convert_costs(opslimit, memlimit);
+    // compared at full width: a limit beyond 32 bits never matches a stored cost
+    let (t_cost, m_cost) = (opslimit, (memlimit / 1024) as u64);
 
-    if t_cost != pwhash.t_cost.unwrap() || m_cost != pwhash.m_cost.unwrap() {
+    if t_cost != pwhash.t_cost.unwrap() as u64 || m_cost != pwhash.m_cost.unwrap() as u64 {
         Ok(true)
     } else {
         Ok(false)
